@@ -42,6 +42,10 @@ def main():
         print('demo on unchanged tree: exit', r.returncode, (r.stdout + r.stderr).strip()[-100:])
         ok &= r.returncode == 0
         r = sh('git -C %s apply %s' % (wt, patch))
+        if r.returncode:
+            # the tree has moved on since the change was made (later fix: commits): three-way merge
+            r = sh('git -C %s apply --3way %s && ! grep -rl "^<<<<<<< " %s/src' % (wt, patch, wt))
+            sh('git -C %s reset -q' % wt)
         print('patch applies:', r.returncode == 0, r.stderr[:200])
         ok &= r.returncode == 0
         r = sh('cd %s && %s /venv/bin/python -m pytest -q -p no:cacheprovider 2>&1 | tail -2' % (wt, env))
